@@ -98,6 +98,9 @@ pub struct Blockchain {
     pub genesis_period: BlockId,
 
     pub checkpoint_found: bool,
+    /// set once the blocks on disk have been loaded: from then on a block that arrives before
+    /// its parent waits in the mempool for it instead of being stored as an unconnected orphan
+    pub initial_loading_completed: bool,
     pub initial_token_supply: Currency,
     pub last_issuance_written_on: BlockId,
 }
@@ -132,6 +135,7 @@ impl Blockchain {
             social_stake_period,
             genesis_period,
             checkpoint_found: false,
+            initial_loading_completed: false,
             initial_token_supply: 0,
             last_issuance_written_on: 0,
         }
@@ -205,6 +209,7 @@ impl Blockchain {
                     block.hash.to_hex()
                 );
             } else if configs.get_blockchain_configs().initial_loading_completed
+                || self.initial_loading_completed
                 || self.checkpoint_found
             {
                 let previous_block_fetched = iterate!(mempool.blocks_queue, 100)
